@@ -95,6 +95,22 @@ impl Timer for SimTimer {
         let _g = EnvGuard::enter();
         let t: PartialComplexTime = time.into();
         let rec = conv::pct(&t);
+        // fault point: the wall clock is corrected by less than a microsecond (either way) right
+        // when a deadline is handed to the timer (only in profiles that step the clock at all)
+        {
+            let mut w = lock(&self.w);
+            if w.profile.clock_jump_permille > 0 && !w.is_probe {
+                let life = w.life;
+                let n = w.ordinal("timer.adjust");
+                if w.draws.chance(&format!("L{life}/timer.adjust#{n}"), 60) {
+                    let v = 1 + w.draws.draw(&format!("L{life}/timer.adjust#{n}/v"), 999) as i128;
+                    let delta = if w.draws.draw(&format!("L{life}/timer.adjust#{n}/back"), 2) == 1 { -v } else { v };
+                    w.wall_skew += delta;
+                    w.stat("time.wall_adjust_at_timer_arm");
+                    w.rec(Kind::ClockJump { delta });
+                }
+            }
+        }
         // fires when any present bound is reached
         let (now_wall, now_mono) = {
             let w = lock(&self.w);
